@@ -169,6 +169,21 @@ def run_part3(item):
         _exec(res, [G.seg(withp([p_a, p_b]))], seed, {'part': 3, 'ptype': t1, 'target': target, 'dup': True}, True)
         _exec(res, [G.seg(withp([p_a])), G.seg(withp([])), G.seg(withp([p_b])), G.seg(withp([]))], seed,
               {'part': 3, 'ptype': t1, 'target': target}, True)
+        if t1 == 'DoubleFloat':
+            # rewrites whose new value compares equal to the old one in Python but is a different value / type on disk
+            import struct as _st
+            eq_pairs = [(['p', 'DoubleFloat', _st.pack('<d', 0.0).hex()], ['p', 'DoubleFloat', _st.pack('<d', -0.0).hex()]),
+                        (['p', 'Int32', _st.pack('<i', 1).hex()], ['p', 'DoubleFloat', _st.pack('<d', 1.0).hex()]),
+                        (['p', 'Int32', _st.pack('<i', 1).hex()], ['p', 'Boolean', '01']),
+                        (['p', 'Uint8', '00'], ['p', 'Boolean', '00']),
+                        (['p', 'DoubleFloat', _st.pack('<d', 2.0).hex()], ['p', 'Int64', _st.pack('<q', 2).hex()]),
+                        (['p', 'SingleFloat', _st.pack('<f', 0.5).hex()], ['p', 'DoubleFloat', _st.pack('<d', 0.5).hex()]),
+                        (['p', 'Int8', 'ff'], ['p', 'Int64', _st.pack('<q', -1).hex()])]
+            for old, new in eq_pairs:
+                for a_, b_ in ((old, new), (new, old)):
+                    _exec(res, [G.seg(withp([a_])), G.seg(withp([b_]))], seed, {'part': 3, 'ptype': 'eq-rewrite', 'target': target}, True)
+                    _exec(res, [G.seg(withp([a_])), G.seg([(path, ['NODATA'] if path != A else ['SAME'], [b_])], newlist=False)], seed,
+                          {'part': 3, 'ptype': 'eq-rewrite', 'target': target}, True)
         for t2 in G.PROP_TYPES:
             v2 = prop_vals(t2)
             q = ['p', t2, hexval(t2, v2[2 % len(v2)])]
